@@ -202,6 +202,8 @@ fn apply_op(b: &mut Bundle, t: &[&str]) -> Option<()> {
         // a payload block as a caller may hand it in: any block number (0 from CanonicalBlock::new, a taken one, …)
         ["setpayloadblock", nm, fl, h] => b.set_payload_block(new_canonical_block(1, nm.parse().ok()?, fl.parse().ok()?, CanonicalData::Data(unhex(h)?))),
         ["setcrc", c] => b.set_crc(c.parse().ok()?),
+        // the object itself is encoded (not a copy): whatever an encoding leaves behind in it is there for the next operation
+        ["tocbor"] => { let _ = b.to_cbor(); }
         ["upd", node, rt, now] => { set_clock_dtn(now.parse().ok()?); b.update_extensions(parse_eid(node)?, rt.parse().ok()?); }
         _ => return None,
     }
@@ -585,7 +587,12 @@ pub fn exec(line: &str, _model: &mut Model) -> Option<Exec> {
             let seen: Vec<Vec<String>> = std::thread::scope(|sc| {
                 let hs: Vec<_> = xs.iter().map(|&x| sc.spawn(move || {
                     let mut v: Vec<String> = vec![];
-                    for _ in 0..4000 { let s = x.string(); if !v.contains(&s) { v.push(s); } }
+                    for k in 0..4000u64 {
+                        let s = x.string(); if !v.contains(&s) { v.push(s); }
+                        // creation timestamps of the same time through their Display, under the same load
+                        if k % 4 == 0 { let t = CreationTimestamp::with_time_and_seq(x, k).to_string(); let want = format!("{} {}", x.string(), k);
+                            if t != want && x <= 252_455_615_999_999 { let bad = format!("creation timestamp ({}, {}) printed as {:?}", x, k, t); if !v.contains(&bad) { v.push(bad); } } }
+                    }
                     v })).collect();
                 hs.into_iter().map(|h| h.join().unwrap_or_default()).collect() });
             let mut e = Exec::new(format!("ok{}", seen.iter().map(|v| format!(" {}", v.iter().map(|s| hex(s.as_bytes())).collect::<Vec<_>>().join("|"))).collect::<String>()));
@@ -840,7 +847,16 @@ fn gen_c07(rng: &mut Rng, ctx: &mut Ctx, rep: &mut Report, emit: Emit) {
     for i in 0..ctx.n(10_000, 1_000_000) {
         let mut b = if i % 3 == 0 { gen_bundle(rng, &Opts { wf: true, max_blocks: 6 }) } else { gen_valid_bundle(rng) };
         if i % 3 == 1 {
-            match rng.below(23) {
+            match rng.below(25) {
+                // an opaque block whose type code equals an at-most-once type modulo 64, 2^8, 2^16 or 2^32, together with a real
+                // block of that type (before or after it), or instead of the bundle age block when the creation time is zero
+                23 | 24 => { let t = *rng.pick(&[6u64, 7, 10]); let alias = t + *rng.pick(&[64u64, 256, 512, 65_536, 1 << 32, 2 << 32, 1 << 63]);
+                             let real = match t { 6 => CanonicalData::PreviousNode(EndpointID::with_dtn("p").unwrap()), 7 => CanonicalData::BundleAge(5), _ => CanonicalData::HopCount(3, 1) };
+                             b.canonicals.retain(|c| c.block_type != t);
+                             let a = new_canonical_block(alias, 80, 0, CanonicalData::Unknown(vec![1]));
+                             match rng.below(3) { 0 => { b.canonicals.insert(0, new_canonical_block(t, 81, 0, real)); b.canonicals.insert(0, a); }
+                                 1 => { b.canonicals.insert(0, a); b.canonicals.insert(0, new_canonical_block(t, 81, 0, real)); }
+                                 _ => { b.canonicals.insert(0, a); if t == 7 { b.primary.creation_timestamp = CreationTimestamp::with_time_and_seq(0, 1); } } } }
                 // a second block of the payload type that holds opaque data (only the API can build it; it passes its own
                 // validation): before / after the payload block, numbered 0 or above — which block counts as "the payload
                 // block" must not depend on where the extra one sits
@@ -918,13 +934,14 @@ fn gen_c08(rng: &mut Rng, ctx: &mut Ctx, rep: &mut Report, emit: Emit) {
             b.canonicals.insert(0, new_canonical_block(7, 8, 0, CanonicalData::BundleAge(age)));
         }
         if rng.chance(1, 2) { let l = *rng.pick(&[0u8, 1, 32, 254, 255]); let c = match rng.below(4) { 0 => l, 1 => l.wrapping_sub(1), 2 => 255, _ => rng.below(40) as u8 }; b.canonicals.insert(0, new_canonical_block(10, 9, 0, CanonicalData::HopCount(l, c))); }
-        if rng.chance(1, 2) { b.canonicals.insert(0, new_canonical_block(6, 10, 0, CanonicalData::PreviousNode(gen_eid_wf(rng)))); }
+        let n = if rng.chance(1, 4) { gen_eid_wf(rng) } else { node.clone() };
+        // the previous node block already names the forwarding node now and then (a bundle that comes back, a second update)
+        if rng.chance(1, 2) { b.canonicals.insert(0, new_canonical_block(6, 10, 0, CanonicalData::PreviousNode(if rng.chance(1, 4) { n.clone() } else { gen_eid_wf(rng) }))); }
         if rng.chance(1, 20) { b.canonicals.insert(0, new_canonical_block(*rng.pick(&[6u64, 7, 10]), 11, 0, CanonicalData::Unknown(vec![1]))); }
         // a block of the same type that fails its own validation (decoding error marker, previous node naming a
         // malformed endpoint) in front of the usable one: the update works on the first USABLE block of each type
         if rng.chance(1, 12) { let t = *rng.pick(&[6u64, 7, 10]); let d = if t == 6 && rng.chance(1, 2) { CanonicalData::PreviousNode(EndpointID::Dtn(1, dtn_address(b"old").unwrap())) } else { CanonicalData::DecodingError }; b.canonicals.insert(0, new_canonical_block(t, 12, 0, d)); }
         let now = bv(rng, ts.wrapping_add(life)).min(u64::MAX - MS2K);
-        let n = if rng.chance(1, 4) { gen_eid_wf(rng) } else { node.clone() };
         emit(ctx, rep, format!("upd {} {} {} {}", show_eid(&n), rt, now, show_bundle(&b)));
     }
 }
@@ -985,7 +1002,13 @@ fn gen_c10(rng: &mut Rng, ctx: &mut Ctx, rep: &mut Report, emit: Emit) {
                 // an empty node name (the parser accepts "dtn:///inbox"), and new services that begin or end with the
                 // separators the constructors look for ('/', "//")
                 if rng.chance(1, 6) { e = EndpointID::Dtn(1, dtn_address(format!("///{}", if rng.chance(1, 3) { String::new() } else { gen_name(rng, true, false) }).as_bytes()).unwrap()); }
-                let svc = match rng.below(9) { 0 => format!(" {} ", rng.below(100)), 1 => format!("\u{2003}{}\u{a0}", rng.below(100)), 2 => nums(rng), 3 => String::new(),
+                // a receiver whose service has several segments, and a new service equal to a tail of it (a suffix test
+                // on the stored address would take the receiver for the requested endpoint already)
+                let mut tail_svc: Option<String> = None;
+                if rng.chance(1, 6) { let segs: Vec<String> = (0..2 + rng.below(3)).map(|_| gen_name(rng, false, false)).collect(); let node = gen_name(rng, false, false);
+                    e = EndpointID::Dtn(1, dtn_address(format!("//{}/{}", node, segs.join("/")).as_bytes()).unwrap());
+                    let k = 1 + rng.below(segs.len() as u64 - 1) as usize; tail_svc = Some(segs[k..].join("/")); }
+                let svc = match rng.below(9) { _ if tail_svc.is_some() => tail_svc.clone().unwrap(), 0 => format!(" {} ", rng.below(100)), 1 => format!("\u{2003}{}\u{a0}", rng.below(100)), 2 => nums(rng), 3 => String::new(),
                     4 => format!("/{}", gen_name(rng, true, false)), 5 => format!("//{}", gen_name(rng, true, false)), 6 => (*rng.pick(&["/", "//", "x/", "/x/", "x//y"])).to_string(), _ => gen_name(rng, true, true) };
                 emit(ctx, rep, format!("eid.newep {} {}", show_eid(&e), hex(svc.as_bytes())));
                 if rng.chance(1, 3) { emit(ctx, rep, format!("eid.withdtn {}", hex(gen_name(rng, true, true).as_bytes()))); }
@@ -1002,6 +1025,7 @@ fn gen_op(rng: &mut Rng, kind: u64) -> String {
         1 => format!("setpayload {}", hex(&gen_payload(rng))),
         2 => format!("setpayloadblock {} {} {}", match rng.below(6) { 0 => 0, 1 => u64::MAX, 2 => 2 + rng.below(4), 3 => rng.u64b(), _ => 1 }, *rng.pick(&[0u8, 1, 4]), hex(&gen_payload(rng))),
         3 => format!("setcrc {}", rng.below(3)),
+        5 => "tocbor".to_string(),
         _ => format!("upd {} {} {}", show_eid(&gen_eid_wf(rng)), rng.below(3), 1 + rng.below(1000)),
     }
 }
@@ -1020,7 +1044,7 @@ fn gen_c11(rng: &mut Rng, ctx: &mut Ctx, rep: &mut Report, emit: Emit) {
     let maxlen = if ctx.tier_thorough { 4 } else { 3 };
     let mut seqs: Vec<Vec<u64>> = vec![vec![]];
     let mut frontier = seqs.clone();
-    for _ in 0..maxlen { let mut next = vec![]; for s in &frontier { for k in 0..5 { let mut x = s.clone(); x.push(k); next.push(x); } } seqs.extend(next.iter().cloned()); frontier = next; }
+    for _ in 0..maxlen { let mut next = vec![]; for s in &frontier { for k in 0..6 { let mut x = s.clone(); x.push(k); next.push(x); } } seqs.extend(next.iter().cloned()); frontier = next; }
     for s in &seqs {
         let b = start(rng);
         let ops: Vec<String> = s.iter().map(|k| gen_op(rng, *k)).collect();
@@ -1041,7 +1065,7 @@ fn gen_c11(rng: &mut Rng, ctx: &mut Ctx, rep: &mut Report, emit: Emit) {
         let mut b = start(rng);
         if rng.chance(1, 10) { b.canonicals.insert(0, new_canonical_block(200, u64::MAX, 0, CanonicalData::Unknown(vec![]))); }
         let n = 1 + rng.below(8);
-        let ops: Vec<String> = (0..n).map(|_| { let k = rng.below(5); gen_op(rng, k) }).collect();
+        let ops: Vec<String> = (0..n).map(|_| { let k = rng.below(6); gen_op(rng, k) }).collect();
         emit(ctx, rep, format!("seq {} {}", show_bundle(&b), ops.join(" ; ")));
     }
 }
@@ -1134,7 +1158,7 @@ fn gen_c13(rng: &mut Rng, ctx: &mut Ctx, rep: &mut Report, emit: Emit) {
         if i % 16 == 3 {
             // sources that differ in ONE character a printing routine might drop, fold or escape: control characters,
             // white space, zero-width and combining characters, case — different endpoints, so different IDs
-            const TWINS: [(&str, &str); 24] = [("gw%41", "gwA"), ("n%2D1", "n-1"), ("lab\u{202e}7", "lab\\u{202e}7"), ("a\u{200e}b", "a\\u{200e}b"), ("a\u{2066}b", "ab"), ("in\\tbox", "in\tbox"),
+            const TWINS: [(&str, &str); 27] = [("inbox/", "inbox"), ("a/b/", "a/b"), ("x//", "x/"), ("gw%41", "gwA"), ("n%2D1", "n-1"), ("lab\u{202e}7", "lab\\u{202e}7"), ("a\u{200e}b", "a\\u{200e}b"), ("a\u{2066}b", "ab"), ("in\\tbox", "in\tbox"),
                 ("a&amp;b", "a&b"), ("a\\x41", "aA"), ("x\u{61c}y", "xy"), ("caf\u{e9}", "cafe"),("in\tbox", "inbox"), ("in\u{0}box", "inbox"), ("inbox\u{7f}", "inbox"), ("in\u{1b}[0mbox", "in[0mbox"), ("inbox ", "inbox"), (" inbox", "inbox"),
                 ("in\u{200b}box", "inbox"), ("e\u{301}", "\u{e9}"), ("Inbox", "inbox"), ("in\nbox", "inbox"), ("in\r\nbox", "in\nbox"), ("in%09box", "in\tbox"), ("in\u{85}box", "inbox"), ("in\u{feff}box", "inbox")];
             let (x, y) = *rng.pick(&TWINS);
